@@ -20,7 +20,7 @@ from vfy import lang
 LEVEL = "exploration"
 DECIDING = ["jobs_compared", "fresh_processes"]
 MIN_DECIDED_RATIO = 0.8
-FEATURES = ("assign", "agg", "control", "print", "fail")
+FEATURES = ("assign", "agg", "control", "print", "fail", "rewrite")
 RULE = (
     "random sequences of 2-6 (csvpath, file) jobs from the program generators (time/random functions excluded) over files whose header cells "
     "contain quotes, delimiters, spaces and newlines; each job's result tuple (lines, variables, printouts, errors, validity, counters, headers, "
